@@ -152,6 +152,17 @@ func mergeToWriter(segments []*SegmentBase, drops []*roaring.Bitmap,
 				return nil, 0, 0, nil, nil, 0, err
 			}
 		}
+	} else {
+		// nothing survives: every document of every input maps to the
+		// dropped sentinel
+		newDocNums = make([][]uint64, len(segments))
+		for segI, segment := range segments {
+			segNewDocNums := make([]uint64, segment.numDocs)
+			for docNum := range segNewDocNums {
+				segNewDocNums[docNum] = docDropped
+			}
+			newDocNums[segI] = segNewDocNums
+		}
 	}
 
 	// we can persist the fields section index now, this will point
